@@ -1,5 +1,6 @@
 import WpModel.Model.Wire
 import WpModel.Model.PdfStream
+import WpModel.Model.UseRefs
 
 /-!
 Wire commands of the stream machine.
@@ -162,8 +163,15 @@ def handle (cmd : String) (args : List Sx) : Option String :=
       "wb=bad:" ++ ",".intercalate (wbBad.reverse.map (fun e => toString e.1 ++ ":" ++
         (match e.2 with | none => "illegal" | some st => "open-" ++ String.join (st.map showFr))))
     match (World.init mark 0).run calls with
-    | .ok w => some ("ok " ++ wb ++ " | " ++ " | ".intercalate (w.streams.map showStreamToks) ++ " || " ++
-        " | ".intercalate (w.res.map showResKeys))
+    | .ok w =>
+      -- the late pass of generate_pdf on the final state: `_use_references`
+      let refs := match useReferences w with
+        | .ok st => "U fonts=" ++ toString st.fontSet.length ++ " streams=" ++
+            toString (st.added.filter (fun a => match a with | .stream _ => true | _ => false)).length ++
+            " images=" ++ toString st.imagesDone.length
+        | .error e => "U " ++ showErr e
+      some ("ok " ++ wb ++ " | " ++ " | ".intercalate (w.streams.map showStreamToks) ++ " || " ++
+        " | ".intercalate (w.res.map showResKeys) ++ " || " ++ refs)
     | .error e => some (showErr e)
   | "naive", mark :: calls => do
     let mark ← mark.bool?
